@@ -18,7 +18,8 @@ TIMEOUT = 25
 
 
 def base_schemas(seed, nrandom):
-    out = [(s.name, s.to_xml()) for s in S.corpus()[::2]] + [(s.name, s.to_xml()) for s in S.random_schemas(seed, nrandom)]
+    out = [(s.name, s.to_xml()) for s in S.corpus()[::2]] + [("attrs", S.corpus_attrs().to_xml())] + \
+          [(s.name, s.to_xml()) for s in S.random_schemas(seed, nrandom)]
     for n in ("test_schema", "test_schema2", "traits_test_schema", "big_endian_schema"):
         out.append(("repo:" + n, C.read_text(os.path.join(C.REPO, "test/schemas/%s.xml" % n))))
     return out
@@ -139,7 +140,9 @@ def main():
     rep.rule("structure-aware mutations (attribute deletion/garbling, extreme numbers, element duplication/removal/move/"
              "swap/retagging, reference retargeting, header-member variants, include insertion incl. missing/self/mutual/"
              "directory/bad files, text garbling; 8%% byte-level: truncation, flips, binary, empty) of valid schemas "
-             "(covering corpus, seeded random, the repository's test schemas), 1-3 mutations each, plus an argv grammar "
+             "(covering corpus, seeded random, the repository's test schemas), 1-3 mutations each, plus a deterministic sweep of "
+             "domain values (presence x every element, with/without valueRef or text; primitiveType; encodingType; type and "
+             "dimensionType x every public name; numeric attribute forms; byteOrder) over corpus schemas, plus an argv grammar "
              "of ~45 command lines; every run executes the ASan+UBSan+assert build with its own output directory. An "
              "evaluation is one sbeppc run; distinct_nontrivial counts distinct (exit class, first diagnostic with "
              "digits and names normalised) outcomes observed, i.e. distinct behaviours reached.")
@@ -165,6 +168,14 @@ def main():
             x = re.sub(r'(<type name="C_strpad"[^>]*length=)"8"', r'\1"%s"' % ln, bases[0][1])
             if x != bases[0][1]:
                 jobs.append(("huge-constant-length:" + ln, x.encode(), "char constant with length=%s" % ln))
+        # deterministic sweep of domain values over every attribute that has a domain (corpus schemas)
+        sweep_bases = [b for b in bases if b[0] in ("prims_le",)] if quick else [b for b in bases if not b[0].startswith("rnd")]
+        nsweep = 0
+        for n, x in sweep_bases:
+            for desc, mx in M.typed_attribute_sweep(x, cap_per_kind=(250 if quick else 4000)):
+                jobs.append(("sweep:%s" % n, mx, desc))
+                nsweep += 1
+        rep.cov["typed_attribute_sweep_inputs"] = nsweep
         rng = C.rng_for(rep.seed, "c09")
         for i in range(nmut):
             n, x = bases[rng.randrange(len(bases))]
